@@ -318,6 +318,13 @@ def rules(rep, m):
                     r5.ok()
 
 
+    # R-C12-6 ------------------------------------------------------------
+    rs = rep.rule("R-C12-6", "the priority queue delivers the object the comparator puts first: one round of the heap's sift loops keeps the heap order for every arrangement of "
+                  "children and every order of the tags involved (shared with R-C02-8)", floor=6)
+    from . import siftrules
+    siftrules.check_sifts(rep, rs, m)
+
+
 def run(tier="quick"):
     models = common.load_models(tier)
     rep = Report(PID, tier, models[0])
